@@ -592,8 +592,7 @@ Qed.
 (* ------------------------------------------------------------------ facts about the abstract journal *)
 
 (* the state a launch rebuilds from the stored record *)
-Definition a_pers (a : ajr) : list Z :=
-  match a_stored a with Some (s, t) => snap_list s ++ t | None => [] end.
+Definition a_pers (a : ajr) : list Z := rebuilds (a_stored a).
 
 Lemma track_cons l p o t :
   track l p (o :: t) = track (fst (track l p [o])) (snd (track l p [o])) t.
@@ -623,17 +622,17 @@ Proof.
             a_state (a_persist false a0) = a_state a0 /\ a_pers (a_persist false a0) = a_state a0).
   { intros a0 H. unfold a_persist. rewrite H. split; reflexivity. }
   assert (Hrec : forall th a0, a_state (a_recover th a0) = a_pers a0 /\ a_pers (a_recover th a0) = a_pers a0).
-  { intros th a0. unfold a_recover, a_pers. destruct (a_stored a0) as [[s t]|] eqn:E; cbn; auto. }
+  { intros th a0. unfold a_recover, a_pers, rebuilds. destruct (a_stored a0) as [[s t]|] eqn:E; cbn; auto. }
   assert (Hnone : a_saved a = None -> a_state a = [] /\ a_pers a = [] /\ a_persist false a = a).
   { intros H. pose proof (awf_saved_none a Hw H) as Hs.
     destruct (a_saved_cases a) as [(_ & H1 & H2)|(H1 & _)]; [|congruence].
-    unfold a_state, a_pers, a_persist. rewrite H1, H2, Hs, H. auto. }
+    unfold a_state, a_pers, rebuilds, a_persist. rewrite H1, H2, Hs, H. auto. }
   assert (Hok : a_state (a_persist false a) = a_state a /\ a_pers (a_persist false a) = a_state a).
   { destruct (a_saved_cases a) as [(H & _)|(H & _)].
     - destruct (Hnone H) as (H1 & H2 & H3). rewrite H3, H1, H2. auto.
     - apply Hper. exact H. }
   destruct o as [e| |th'| | | | |th']; cbn [astep track a_relaunch a_explicit fst].
-  - destruct (a_th a <=? _)%Z; cbn [fst]; unfold a_state, a_pers; cbn [a_snap a_tail a_stored snap_list].
+  - destruct (a_th a <=? _)%Z; cbn [fst]; unfold a_state, a_pers, rebuilds; cbn [a_snap a_tail a_stored snap_list].
     + rewrite app_nil_r. reflexivity.
     + rewrite app_assoc. reflexivity.
   - destruct (Hrec (a_th a) (a_persist false a)) as [H1 H2]. destruct Hok as [_ H4]. rewrite H1, H2, H4. reflexivity.
@@ -780,6 +779,13 @@ Proof.
   destruct (run_track g th ops) as (HI & Hl & _). rewrite (inv_actor _ _ HI). exact Hl.
 Qed.
 
+(* at every moment what the storage holds rebuilds the state of the last successful persist *)
+Theorem stored_record_is_last_successful_persist g th ops :
+  rebuilds (stored_view (fst (run repaired g th ops))) = last_persisted ops.
+Proof.
+  destruct (run_track g th ops) as (HI & _ & Hp). rewrite (inv_stored_view _ _ HI). exact Hp.
+Qed.
+
 (* ... without failing saves it is the full recorded history: across every generation *)
 Theorem state_is_history g th ops :
   fault_free ops = true ->
@@ -792,22 +798,22 @@ Theorem recovers_last_successful_persist g th ops o :
   let c := fst (run repaired g th ops) in
   launch_state (snd (step repaired g c o)) = Some (last_persisted (ops ++ [o]))
   /\ actor (fst (step repaired g c o)) = last_persisted (ops ++ [o])
-  /\ stored_view (fst (step repaired g c o)) = stored_view (fst (run repaired g th (ops ++ [o]))).
+  /\ rebuilds (stored_view (fst (step repaired g c o))) = last_persisted (ops ++ [o]).
 Proof.
   intros Hrl. cbv zeta.
   destruct (run_track g th ops) as (HI & _ & _).
   destruct (run_track g th (ops ++ [o])) as (HI1 & Hl1 & Hp1).
-  rewrite run_snoc in HI1 |- *. rewrite arun_snoc in HI1, Hl1, Hp1.
+  rewrite run_snoc in HI1. rewrite arun_snoc in HI1, Hl1, Hp1.
   pose proof (step_refines g _ _ o HI) as (_ & Ho).
   destruct (astep_relaunch (fst (arun th ops)) o Hrl) as (_ & Hls & _). cbv zeta in Hls.
   assert (Heq : a_state (fst (astep (fst (arun th ops)) o)) = last_persisted (ops ++ [o])).
   { rewrite <- Hp1.
     destruct (astep_relaunch_stored _ o (inv_awf _ _ HI) Hrl) as [(H1 & H2 & H3)|H1]; cbv zeta in *;
-      unfold a_state, a_pers; rewrite H1; [rewrite H2, H3|]; reflexivity. }
+      unfold a_state, a_pers, rebuilds; rewrite H1; [rewrite H2, H3|]; reflexivity. }
   split; [|split].
   - rewrite Ho, Hls, Heq. reflexivity.
   - rewrite (inv_actor _ _ HI1). exact Heq.
-  - reflexivity.
+  - rewrite (inv_stored_view _ _ HI1). exact Hp1.
 Qed.
 
 (* operations without a successful save leave what Load returns unchanged, however many events overwrite the
